@@ -96,3 +96,13 @@ claim('C16', 'Coq theorems (frame of parsing by induction over all construct cla
       'LazyStruct/Lazy with the eager Struct, rebuild and the enclosing parse are checked on the library: all histories with repetition up to k^k '
       'for k<=4 (k<=6 thorough) by index/name/attribute, iteration, slicing, on canonical, offset, trailing and mutated inputs; each history also '
       'runs on the extracted model (lazy_run). Five repaired defects (F6, F13, F17-F21).', 'DESIGN.md 6/C16')
+claim('C17', 'Coq theorems over write-effect summaries regenerated from the source by an ast translator (finite admissibility check + frame over all histories and interleavings) + history correspondence with the pure model + vars()/class-state snapshots + entry-point and threaded oracles',
+      'effects_ok: in the table regenerated from the current source - every call-time method of every Construct / expression class and every '
+      'module-level function of the package - nothing writes self, class or module state except Rebuffered.stream2, Debugger.retval and three '
+      'uncalled print-option setters (kernel-evaluated on every run). history_frame / C17_objects_unchanged / C17_any_schedule: hence after any '
+      'history of calls and under any interleaving of any number of workers every object is unchanged, and every observation of it is the same at '
+      'every point. On the library: call histories over a pool sharing members and singletons, each call compared with fresh objects and repeated '
+      'after the history, recursive vars() and class/module state snapshots, 8 and 16 concurrent workers; the same call streams compared with the '
+      'extracted model, which is a function of (construct, input, context) by construction; bytes / bytearray / memoryview / parse_stream at offsets / '
+      'parse_file and build / build_stream / build_file agree. The theorem trusts the translator\'s notion of a write; thread schedules are validated, not proved.',
+      'DESIGN.md 6/C17')
